@@ -7,6 +7,7 @@ import (
 	"fmt"
 	"math"
 	"math/rand/v2"
+	"net"
 	"os"
 	"regexp"
 	"runtime"
@@ -564,6 +565,222 @@ func forwardCase(idx int64, r *rand.Rand) {
 	rt.Distinct(fmt.Sprintf("fw-dd|%s|%d", prefix, idx))
 }
 
+// ---------------------------------------------------------------- B1': polled gauges, suppliers that have nothing to report
+
+// gaugePollCase: a started registry polls three gauge suppliers: one always reports a value, one never has a value
+// (ok == false), one has values for a while and then none.  After at least three polls and Stop: the backend holds
+// the reported values under the prefixed names and nothing at all for the supplier that never reported.
+func gaugePollCase(idx int64, r *rand.Rand) {
+	poll := time.Duration(100+r.IntN(300)) * time.Microsecond
+	prefix := []string{"pfx", "a.b.", ""}[r.IntN(3)]
+	vA := float64(1 + r.IntN(1000))
+	vC := float64(1 + r.IntN(1000))
+	okCalls := int64(1 + r.IntN(3))
+	var nA, nB, nC atomic.Int64
+	supA := func() (float64, bool) { nA.Add(1); return vA, true }
+	supB := func() (float64, bool) { nB.Add(1); return 777, false }
+	supC := func() (float64, bool) {
+		if nC.Add(1) <= okCalls {
+			return vC, true
+		}
+		return -5, false
+	}
+	waitPolls := func() bool {
+		for i := 0; i < 40000 && (nA.Load() < 3 || nB.Load() < 3 || nC.Load() < okCalls+2); i++ {
+			time.Sleep(poll)
+		}
+		return nA.Load() >= 3 && nB.Load() >= 3 && nC.Load() >= okCalls+2
+	}
+	if r.IntN(2) == 0 {
+		greg := gom.NewRegistry()
+		mr, err := gometrics.NewGoMetricsMetricRegistry(greg, "", prefix, poll)
+		if err != nil {
+			panic(err)
+		}
+		want := prefix
+		if want == "" {
+			want = "limiter."
+		}
+		if !strings.HasSuffix(want, ".") {
+			want += "."
+		}
+		mr.RegisterGauge("gA", supA)
+		mr.RegisterGauge("gB", supB)
+		mr.RegisterGauge("gC", supC)
+		mr.Start()
+		okW := waitPolls()
+		mr.Stop()
+		if !okW {
+			rt.Inconclusive("C20 gauges not polled three times (gometrics)")
+			return
+		}
+		rt.Count("polled_gauge_checks", 1)
+		cfg := rt.J{"registry": "gometrics", "prefix": prefix, "poll_period": poll.String(), "polls": nA.Load()}
+		if g := greg.Get(want + "gB"); g != nil {
+			val := 0.0
+			if gf, ok := g.(gom.GaugeFloat64); ok {
+				val = gf.Value()
+			}
+			rt.Violation("C20/gometrics/gauge-reported-for-a-supplier-that-has-no-value", idx, rt.J{"config": cfg, "name": want + "gB", "backend_value": val})
+			return
+		}
+		for name, v := range map[string]float64{"gA": vA, "gC": vC} {
+			gf, ok := greg.Get(want + name).(gom.GaugeFloat64)
+			if !ok || gf.Value() != v {
+				got := "absent"
+				if ok {
+					got = fmt.Sprint(gf.Value())
+				}
+				rt.Violation("C20/gometrics/polled-gauge-value-differs-from-supplier", idx, rt.J{"config": cfg, "name": want + name, "want": v, "backend": got})
+				return
+			}
+		}
+		rt.Distinct(fmt.Sprintf("gp-gom|%s|%v|%d", prefix, poll, okCalls))
+		return
+	}
+	w := &capture{}
+	cl, err := statsd.NewWithWriter(w, statsd.WithoutTelemetry(), statsd.WithoutClientSideAggregation(), statsd.WithoutOriginDetection())
+	if err != nil {
+		panic(err)
+	}
+	defer cl.Close()
+	if prefix == "" {
+		prefix = "dflt"
+	}
+	mr, err := datadog.NewMetricRegistryWithClient(cl, prefix, poll)
+	if err != nil {
+		panic(err)
+	}
+	want := prefix
+	if !strings.HasSuffix(want, ".") {
+		want += "."
+	}
+	mr.RegisterGauge("gA", supA)
+	mr.RegisterGauge("gB", supB)
+	mr.RegisterGauge("gC", supC)
+	mr.Start()
+	okW := waitPolls()
+	mr.Stop()
+	cl.Flush()
+	out := w.take()
+	if !okW {
+		rt.Inconclusive("C20 gauges not polled three times (datadog)")
+		return
+	}
+	rt.Count("polled_gauge_checks", 1)
+	cfg := rt.J{"registry": "datadog", "prefix": prefix, "poll_period": poll.String(), "polls": nA.Load()}
+	seen := map[string][]string{}
+	for _, ln := range strings.Split(out, "\n") {
+		if i := strings.Index(ln, ":"); i > 0 {
+			seen[ln[:i]] = append(seen[ln[:i]], ln[i+1:])
+		}
+	}
+	if len(seen[want+"gB"]) > 0 {
+		rt.Violation("C20/datadog/gauge-reported-for-a-supplier-that-has-no-value", idx, rt.J{"config": cfg, "wire_lines": seen[want+"gB"][:1]})
+		return
+	}
+	for name, v := range map[string]float64{"gA": vA, "gC": vC} {
+		lines := seen[want+name]
+		bad := len(lines) == 0
+		for _, ln := range lines {
+			var got float64
+			i := strings.Index(ln, "|")
+			if i <= 0 {
+				bad = true
+				break
+			}
+			if _, err := fmt.Sscanf(ln[:i], "%g", &got); err != nil || got != v || !strings.HasPrefix(ln[i:], "|g") {
+				bad = true
+			}
+		}
+		if name == "gC" && int64(len(lines)) != okCalls {
+			bad = true
+		}
+		if bad {
+			rt.Violation("C20/datadog/polled-gauge-value-differs-from-supplier", idx, rt.J{"config": cfg, "name": want + name, "want": v, "wire_lines": head2(lines), "lines": len(lines), "values_the_supplier_had": okCalls})
+			return
+		}
+	}
+	rt.Distinct(fmt.Sprintf("gp-dd|%s|%v|%d", prefix, poll, okCalls))
+}
+
+func head2(v []string) []string {
+	if len(v) > 4 {
+		return v[:4]
+	}
+	return v
+}
+
+// addrCase: the datadog registry built from an address (its own client): samples reach the agent under the prefixed
+// name, the empty prefix meaning the documented default "limiter.".  A loop-back UDP socket plays the agent.
+func addrCase(idx int64, r *rand.Rand) {
+	pc, err := net.ListenPacket("udp", "127.0.0.1:0")
+	if err != nil {
+		rt.Inconclusive("C20 no loop-back UDP socket")
+		return
+	}
+	defer pc.Close()
+	prefix := []string{"", "", "svc", "svc.", "a.b"}[r.IntN(5)]
+	mr, err := datadog.NewMetricRegistry(pc.LocalAddr().String(), prefix, time.Hour)
+	if err != nil {
+		panic(err)
+	}
+	want := prefix
+	if want == "" {
+		want = "limiter."
+	}
+	if !strings.HasSuffix(want, ".") {
+		want += "."
+	}
+	id := fmt.Sprintf("m%d", r.IntN(1000))
+	v := float64(1 + r.IntN(1000))
+	kind := r.IntN(2)
+	suffix := "|d"
+	if kind == 0 {
+		mr.RegisterDistribution(id).AddSample(v)
+	} else {
+		suffix = "|ms"
+		mr.RegisterTiming(id).AddSample(v)
+	}
+	// the client flushes its buffer every 100 ms; wait (bounded) for the datagram that carries our id
+	var lines []string
+	buf := make([]byte, 65536)
+	found := ""
+	for tries := 0; tries < 40 && found == ""; tries++ {
+		pc.SetReadDeadline(time.Now().Add(250 * time.Millisecond))
+		n, _, err := pc.ReadFrom(buf)
+		if err != nil {
+			continue
+		}
+		for _, ln := range strings.Split(string(buf[:n]), "\n") {
+			if strings.Contains(ln, id+":") {
+				found = ln
+			}
+			lines = append(lines, ln)
+		}
+	}
+	if found == "" {
+		rt.Inconclusive("C20 no datagram with the sample arrived at the loop-back agent")
+		return
+	}
+	rt.Count("forwarded_samples_checked_via_udp", 1)
+	wantPrefix := fmt.Sprintf("%s%s:<%g>%s", want, id, v, suffix)
+	okLine := false
+	if rest, has := strings.CutPrefix(found, want+id+":"); has {
+		if i := strings.Index(rest, "|"); i > 0 {
+			var got float64
+			_, err := fmt.Sscanf(rest[:i], "%g", &got)
+			okLine = err == nil && got == v && strings.HasPrefix(rest[i:], suffix) && (len(rest[i:]) == len(suffix) || rest[i+len(suffix)] == '|')
+		}
+	}
+	if !okLine {
+		rt.Violation("C20/datadog/sample-not-forwarded-to-metric-of-right-kind-and-name", idx, rt.J{"constructor": "NewMetricRegistry(addr)", "prefix": prefix, "id": id,
+			"want_line_prefix": wantPrefix, "wire_line": found})
+		return
+	}
+	rt.Distinct(fmt.Sprintf("addr|%s|%d", prefix, kind))
+}
+
 // ---------------------------------------------------------------- B3: life cycle
 
 type registry interface {
@@ -841,6 +1058,10 @@ func TestCheck(t *testing.T) {
 		r := rt.CaseRand(20, idx)
 		rt.Case()
 		switch m := idx % 24; {
+		case idx%48 == 19:
+			gaugePollCase(idx, r)
+		case idx%96 == 43:
+			addrCase(idx, r)
 		case m == 0:
 			concurrentStrategySamples(idx, r)
 		case m < 6:
